@@ -123,6 +123,8 @@ def invoke_history(case):
     for k, step in enumerate(case["steps"]):
         tid = f"{case['cid']}/{k}"
         ufo_case = {"glyphs": step["glyphs"], "info": step.get("info", {}), "lib": step.get("lib", {})}
+        if step.get("layers"):
+            ufo_case["layers"] = step["layers"]
         font = absfont.build_font(ufo_case, lib)
         font2 = absfont.build_font(ufo_case, lib)
         sep = step.get("separate", True) or spec["name"] == "SkipExportGlyphs"
@@ -132,6 +134,13 @@ def invoke_history(case):
         else:
             gs = gs2 = None
         rec = {"tid": tid, "filter": spec["name"], "sep": bool(sep), "lib": lib}
+        if step.get("explode") and sep:
+            # a colour font: the colour-layer glyphs are first copied into the working glyph set, under keys ("a.color1")
+            # that differ from the copies' names ("a"); the filter under test then runs on that glyph set
+            from ufo2ft.filters.explodeColorLayerGlyphs import ExplodeColorLayerGlyphsFilter
+
+            ExplodeColorLayerGlyphsFilter()(font, gs)
+            ExplodeColorLayerGlyphsFilter()(font2, gs2)
         target = gs if sep else _GlyphSet.from_layer(font)
         rec["before"] = proj(target)
         rec["inc"] = included_names(spec, target)
